@@ -163,6 +163,25 @@ func (t *RType) Accepts(s string) bool {
 		return false
 	case "empty":
 		return s == ""
+	case "bits":
+		// RFC 6020 9.7.2: a space-separated list of the names of the bits that are set (each declared, none twice)
+		seen := map[string]bool{}
+		for _, b := range strings.Fields(s) {
+			ok := false
+			for _, e := range t.Enums {
+				if e == b {
+					ok = true
+				}
+			}
+			if !ok || seen[b] {
+				return false
+			}
+			seen[b] = true
+		}
+		return strings.TrimSpace(s) == s && !strings.Contains(s, "  ") && !strings.ContainsAny(s, "\t\n")
+	case "instance-identifier":
+		// only what is plainly no instance identifier is modelled: it starts with '/' and is not empty
+		return strings.HasPrefix(s, "/") && len(s) > 1 && !strings.ContainsAny(s, " !")
 	case "union":
 		for _, m := range t.Members {
 			if m.Accepts(s) {
